@@ -33,20 +33,20 @@ type AssertRec struct {
 }
 
 type Violation struct {
-	Harness   string      `json:"harness"`
-	Label     string      `json:"label"`
-	Kind      string      `json:"kind"` // assert | panic | blocked | deadlock
-	Msg       string      `json:"msg,omitempty"`
-	Decisions []int32     `json:"decisions"`
-	Tape      []TapeEntry `json:"tape"`
+	Harness   string         `json:"harness"`
+	Label     string         `json:"label"`
+	Kind      string         `json:"kind"` // assert | panic | blocked | deadlock
+	Msg       string         `json:"msg,omitempty"`
+	Decisions []int32        `json:"decisions"`
+	Tape      []TapeEntry    `json:"tape"`
 	Params    map[string]int `json:"params"`
-	Trace     []string    `json:"trace,omitempty"`
-	Outs      []string    `json:"outs,omitempty"`
-	Sched     []SchedStep `json:"sched_order,omitempty"`
-	SchedHang bool        `json:"sched_hang,omitempty"`
-	SchedFree bool        `json:"sched_free,omitempty"` // threads run free under the race detector
-	Confirmed string      `json:"confirmed,omitempty"` // set by replay
-	ReplayOut string      `json:"-"`
+	Trace     []string       `json:"trace,omitempty"`
+	Outs      []string       `json:"outs,omitempty"`
+	Sched     []SchedStep    `json:"sched_order,omitempty"`
+	SchedHang bool           `json:"sched_hang,omitempty"`
+	SchedFree bool           `json:"sched_free,omitempty"` // threads run free under the race detector
+	Confirmed string         `json:"confirmed,omitempty"`  // set by replay
+	ReplayOut string         `json:"-"`
 }
 
 // SchedStep is one gateable event (a user event of a thread) of a schedule witness.
@@ -66,58 +66,59 @@ type Path struct {
 	tape   []TapeEntry
 	nvars  int
 
-	reached   map[string]bool
-	asserts   []AssertRec
-	viols     []Violation
-	outs      []string
-	outVals   [][]Value // arguments of each verifOut, for rendering under a model
-	status    string
-	statusMsg string
-	allocHook func(*Term)
+	reached       map[string]bool
+	asserts       []AssertRec
+	viols         []Violation
+	outs          []string
+	outVals       [][]Value // arguments of each verifOut, for rendering under a model
+	status        string
+	statusMsg     string
+	allocHook     func(*Term)
 	prefixChecked bool
-	notes     []string
-	cross     []CrossQuery
+	notes         []string
+	cross         []CrossQuery
 }
 
 func (p *Path) replaying() bool { return p.pos < len(p.prefix) }
 
 // HarnessResult aggregates the exploration of one harness.
 type HarnessResult struct {
-	Harness      string
-	Params       map[string]int
-	Paths        int
-	Statuses     map[string]int
-	Reached      map[string]int
-	Asserts      int
-	Trivial      int
-	Discharged   int
-	Unknown      int
-	Distinct     map[string]bool
-	Violations   []Violation
-	EngineErrors map[string]int
-	Funcs        map[string]bool
-	Stubs        map[string]bool
-	Queries      int
-	NSat, NUnsat, NUnknown int
-	SolverErrors []string
-	SolveTime    time.Duration
-	Wall         time.Duration
-	Samples      []map[string]interface{}
-	Steps        int64
-	Traces       []*ThreadTrace // thread mode
-	MaxPaths     bool
-	CrossQueries []CrossQuery
-	Outs         [][]string
+	Harness                                       string
+	Params                                        map[string]int
+	Paths                                         int
+	Statuses                                      map[string]int
+	Reached                                       map[string]int
+	Asserts                                       int
+	Trivial                                       int
+	Discharged                                    int
+	Unknown                                       int
+	Distinct                                      map[string]bool
+	Violations                                    []Violation
+	EngineErrors                                  map[string]int
+	Funcs                                         map[string]bool
+	Stubs                                         map[string]bool
+	Queries                                       int
+	NSat, NUnsat, NUnknown                        int
+	SolverErrors                                  []string
+	SolveTime                                     time.Duration
+	Wall                                          time.Duration
+	Samples                                       []map[string]interface{}
+	Steps                                         int64
+	Traces                                        []*ThreadTrace // thread mode
+	MaxPaths                                      bool
+	CrossQueries                                  []CrossQuery
+	Outs                                          [][]string
 	SchedStates, SchedTransitions, SchedValidated int
-	Undecided           map[string]int // schedule layer: combinations outside the decided bound
-	soloReplies         []map[string]bool // schedule layer: per thread, the replies observed when running alone
-	ViolCount           map[string]int
-	NViolations         int
-	Unwinds             map[string]int
-	MaxStepsPath        int64
-	StoppedOnViolations bool
-	RandTape    []TapeEntry
-	RandOutcome string
+	DistinctPath                                  map[string]bool   // (label, path) of assertions folded to true on a path with a symbolic path condition
+	Undecided                                     map[string]int    // schedule layer: combinations outside the decided bound
+	soloReplies                                   []map[string]bool // schedule layer: per thread, the replies observed when running alone
+	ViolCount                                     map[string]int
+	NViolations                                   int
+	Unwinds                                       map[string]int
+	MaxStepsPath                                  int64
+	StoppedOnViolations                           bool
+	RandTape                                      []TapeEntry
+	RandOutcome                                   string
 }
 
 // CrossQuery is a sampled assertion query kept for re-checking by other solvers.
@@ -128,17 +129,17 @@ type CrossQuery struct {
 }
 
 type Explorer struct {
-	pushes int // alternatives queued so far (fork profile)
-	L        *Loaded
-	Fn       *ssa.Function
-	Params   map[string]int
-	Workers  int
-	MaxPaths int
-	TimeoutMs int
-	Deadline time.Time
-	Verbose  bool
-	RandSeed int64 // != 0: single random-concrete run (translator validation)
-	StopViolations int // stop exploring after this many violations (default 48)
+	pushes         int // alternatives queued so far (fork profile)
+	L              *Loaded
+	Fn             *ssa.Function
+	Params         map[string]int
+	Workers        int
+	MaxPaths       int
+	TimeoutMs      int
+	Deadline       time.Time
+	Verbose        bool
+	RandSeed       int64 // != 0: single random-concrete run (translator validation)
+	StopViolations int   // stop exploring after this many violations (default 48)
 
 	mu      sync.Mutex
 	cond    *sync.Cond
@@ -333,6 +334,19 @@ func (ex *Explorer) collectPath(in *Interp) {
 	}
 	for _, k := range p.notes {
 		r.Distinct[k] = true
+	}
+	// assertions that folded to true on a path whose path condition is symbolic:
+	// the assertion holds for every input of the region the solver found feasible
+	if len(p.pc) > 0 && len(p.dec) > 0 {
+		if r.DistinctPath == nil {
+			r.DistinctPath = map[string]bool{}
+		}
+		dl := fmt.Sprint(decList(p.dec))
+		for _, a := range p.asserts {
+			if a.Verdict == "trivial" {
+				r.DistinctPath[a.Label+"/"+dl] = true
+			}
+		}
 	}
 	for _, q := range p.cross {
 		if len(r.CrossQueries) < 60 {
